@@ -486,6 +486,8 @@ class Unit:
         return Unit(
             self.expr**p,
             base_value=(self.base_value**p),
+            # u**1 is u: keep its offset (other powers of offset units are refused)
+            base_offset=(self.base_offset if p == 1 else 0.0),
             dimensions=(self.dimensions**p),
             registry=self.registry,
         )
